@@ -40,7 +40,7 @@ def make_cfg(name, seed=0, max_dev=1, checks=("toc_sync", "toc_vs_model", "inmem
     for s_, d_ in ((E, H), (GD, GF), (G, H), (E, GF)):
         ops.append(["copy", s_, d_, False])
         ops.append(["copy", s_, d_, True])
-    for s_, d_ in ((E, H), (GD, GF), (G, H), (GD, H)):
+    for s_, d_ in ((E, H), (GD, GF), (G, H), (GD, H), (H, E), (GF, GD)):  # the last two: back to a path the node had before
         ops.append(["move", s_, d_])
     ops += [["R"], ["B"]]
     return {"name": name, "ops": ops, "max_dev": max_dev, "checks": list(checks), "envs": list(envs), "paths": [G, GD, E, H, GF]}
